@@ -58,7 +58,7 @@ def run(tier, seed):
         v.sample(rec)
     nt = sum(1 for rec in recs if rec['ndim'] > 1 or rec['layout'] != 'flat' or rec['form'] != 'separate')
     if nt == 0:
-        raise MachineryError('vacuous run')
+        v.vacuous('vacuous run')
     cov = dict(states=out['run']['states'] + sum(r['states'] for r in comp['runs']),
                transitions=out['run']['transitions'] + sum(r['transitions'] for r in comp['runs']),
                traces_validated_against_impl=len(recs) + ncomp, evaluations=v.counters.get('evaluations', 0),
